@@ -8,7 +8,7 @@ from ..harness import Outcome
 from .base import Prop, run_export, failure_class, failure_detail, Flows, stream_mismatch_class, describe_conn, \
     apply_segmentation
 
-NET = {"delay": 40, "lost_before": 15, "dup": 30, "dup_rto": 20, "dup_late": 10, "_D": 4}
+NET = {"delay": 40, "early": 30, "lost_before": 15, "dup": 30, "dup_rto": 20, "dup_late": 10, "_D": 4}
 
 
 def first_displaced(conn, ex):
